@@ -317,6 +317,12 @@ def run(ctx, V):
         except Exception as e:
             fails.append((f"toast_pixel_for_point raised {e!r}", case, None))
             continue
+        # the tile handed back by the PIXEL lookup is the one the TILE lookup gives in the requested system
+        # (seeded change C04-n dropped the system on the way: an astronomical tile contains the point too,
+        # but it is not the planetary tile the caller asked about)
+        ref = T.toast_tile_for_point(depth, lat, lon, systems[pl])
+        if tuple(ref.pos) != tuple(tile.pos) or not np.array_equal(np.asarray(ref.corners, dtype=float), np.asarray(tile.corners, dtype=float)):
+            fails.append((f"toast_pixel_for_point returned tile {tuple(tile.pos)}, toast_tile_for_point in the same system {tuple(ref.pos)}", case, None))
         lons, lats = T.toast_tile_get_coords(tile)
         ix, iy = nearest_pixel(lons, lats, lon, lat)
         e = math.hypot(float(x) - ix, float(y) - iy)
